@@ -173,8 +173,8 @@ structure RState (G : Type) where
   bhRandom : Option G
   /-- `round2.finished` -/
   finished : Bool
-  /-- `GenerateBlock` was called with these two signatures -/
-  generated : Option (G × G)
+  /-- `GenerateBlock` was called with these `bh.Signature`, `bh.Random` -/
+  generated : Option (Option G × Option G)
 
 /-- Why `round1.Update` did what it did (for the evidence distribution; the Go
 code only logs it). -/
@@ -241,28 +241,23 @@ def start1 {G : Type} (c : Crypto G) (env : Env) (st : RState G) : RState G × B
         ({ r.1 with processed := r.1.processed ++ st.future.map (·.mid), future := [], started := true },
           false, false)
 
+/-- `groupsig.VerifySig(gpk, d, *DeserializeSign(bytes))` on a header field:
+an empty field deserialises to a nil signature, which `VerifySig` rejects, as it
+rejects points that are not on the curve. -/
+def sigOk {G : Type} (c : Crypto G) (d : Data) : Option G → Bool
+  | some s => !c.isNil s && c.isValid s && c.verifyGroup d s
+  | none => false
+
 /-- `round2.Start` with `checkSignature` (round_sign_finalizer.go). Returns the
-state and whether an error was returned. `isNilOpt`: `DeserializeSign` of an
-empty `bh.Signature` gives a nil signature, which `VerifySig` rejects. -/
+state and whether an error was returned. -/
 def start2 {G : Type} (c : Crypto G) (env : Env) (st : RState G) : RState G × Bool :=
   if st.finished then (st, true)
   else
     let st := { st with finished := true }
     if env.blockExists then (st, true)
-    else
-      let okSig := match st.bhSignature with
-        | some s => !c.isNil s && c.isValid s && c.verifyGroup env.hash s
-        | none => false
-      if !okSig then (st, true)
-      else
-        let okRand := match st.bhRandom with
-          | some s => !c.isNil s && c.isValid s && c.verifyGroup env.prevRandom s
-          | none => false
-        if !okRand then (st, true)
-        else
-          match st.bhSignature, st.bhRandom with
-          | some a, some b => ({ st with generated := some (a, b) }, false)
-          | _, _ => (st, true)
+    else if !sigOk c env.hash st.bhSignature then (st, true)
+    else if !sigOk c env.prevRandom st.bhRandom then (st, true)
+    else ({ st with generated := some (st.bhSignature, st.bhRandom) }, false)
 
 /-! ### baseParty.Update from round1 on -/
 
@@ -313,21 +308,24 @@ def partyUpdate {G : Type} (c : Crypto G) (env : Env) (p : Party G) (m : VMsg G)
       else if r.err then ({ p with rs := r.st, errPending := true }, r.out)
       else (advance c env { p with rs := r.st }, r.out)
 
+/-- The round state `round0.NextRound` hands to round1 (generators not yet created). -/
+def RState.init {G : Type} (processed : List MsgId) (future : List (VMsg G)) : RState G where
+  number := 1
+  canProcessed := false
+  started := false
+  processed := processed
+  future := future
+  gSign := Gen.new 0
+  rSign := Gen.new 0
+  bhSignature := none
+  bhRandom := none
+  finished := false
+  generated := none
+
 /-- Entering round1 the way `baseParty.Update`'s loop does after round0 finished:
 `NextRound` (number 1, canProcessed false, started false), `round1.Start`, and on. -/
 def enter {G : Type} (c : Crypto G) (env : Env) (processed : List MsgId) (future : List (VMsg G)) : Party G :=
-  let rs : RState G :=
-    { number := 1
-      canProcessed := false
-      started := false
-      processed := processed
-      future := future
-      gSign := Gen.new 0
-      rSign := Gen.new 0
-      bhSignature := none
-      bhRandom := none
-      finished := false
-      generated := none }
+  let rs : RState G := RState.init processed future
   let r := start1 c env rs
   let p : Party G := { phase := .r1, rs := r.1, errPending := false, donePending := false }
   if r.2.2 then p                                   -- panic recovered in baseParty.Update
